@@ -565,6 +565,14 @@ int _vnacal_new_add_common(vnacal_new_add_arguments_t vnaa)
 		int full_m_column = (b_columns < full_m_columns) ?
 		    m_port_map[b_diagonal] - 1: b_diagonal;
 
+		if (full_m_row >= full_m_rows ||
+			full_m_column >= full_m_columns) {
+		    _vnacal_error(vcp, VNAERR_USAGE, "%s: port %d is outside "
+			    "of the %d x %d measurement matrix",
+			    function, m_port_map[b_diagonal],
+			    full_m_rows, full_m_columns);
+		    goto out;
+		}
 		m_cell_map[b_diagonal] =
 		    full_m_row * full_s_columns + full_m_column;
 		m_row_given[full_m_row] = true;
@@ -575,11 +583,25 @@ int _vnacal_new_add_common(vnacal_new_add_arguments_t vnaa)
 		int full_m_row = (b_rows < full_m_rows) ?
 		    m_port_map[b_row] - 1: b_row;
 
+		if (full_m_row >= full_m_rows) {
+		    _vnacal_error(vcp, VNAERR_USAGE, "%s: port %d is outside "
+			    "of the %d x %d measurement matrix",
+			    function, m_port_map[b_row],
+			    full_m_rows, full_m_columns);
+		    goto out;
+		}
 		m_row_given[full_m_row] = true;
 		for (int b_column = 0; b_column < b_columns; ++b_column) {
 		    int full_m_column = (b_columns < full_m_columns) ?
 			m_port_map[b_column] - 1: b_column;
 
+		    if (full_m_column >= full_m_columns) {
+			_vnacal_error(vcp, VNAERR_USAGE, "%s: port %d is "
+				"outside of the %d x %d measurement matrix",
+				function, m_port_map[b_column],
+				full_m_rows, full_m_columns);
+			goto out;
+		    }
 		    m_cell_map[b_row * b_columns + b_column] =
 			full_m_row * full_m_columns + full_m_column;
 		    m_column_given[full_m_column] = true;
